@@ -15,6 +15,7 @@ import NgVerif.Model.FileStore
 import NgVerif.Model.Transform
 import NgVerif.Model.Mesh
 import NgVerif.Model.Slices
+import NgVerif.Model.Http
 /-
   ngdriver: line protocol. One request per line on stdin (space-separated tokens),
   one reply per line on stdout. Unknown / malformed requests answer `bad-request`.
@@ -418,6 +419,36 @@ def handle (toks : List String) : String :=
         (List.range nc).map fun c => Slices.outCoord p sg [nc, nr, ns] [c, r, s]
       ",".intercalate (coords.map fun o => ".".intercalate (o.map toString))
     | _, _, _ => "bad-request"
+  | ["http", op, code, bodylen, want] =>
+    -- code = 0 means transport failure; body is `bodylen` zero bytes (only its length matters)
+    match parseNat code, parseNat bodylen, parseNat want with
+    | some c, some n, some w =>
+      let r : Http.Reply := if c = 0 then .transport else .status c (List.replicate n 0)
+      let showE : Http.Err → String
+        | .dataAccess => "DataAccessError" | .ioError => "IOError"
+      if op == "fetch" then
+        (match Http.fetchFile r with | .ok b => s!"ok {b.length}" | .error e => showE e)
+      else if op == "exists" then
+        (match Http.fileExists r with | .ok b => (if b then "true" else "false") | .error e => showE e)
+      else
+        (match Http.shardReadBytes w r with | .ok b => s!"ok {b.length}" | .error e => showE e)
+    | _, _, _ => "bad-request"
+  | ["http-range", idx, data, off, len] =>
+    -- idx = "-" : single .shard file given in `data`; otherwise legacy .index / .data pair
+    match hexToBytes idx, hexToBytes data, parseNat off, parseNat len with
+    | some ib, some db, some o, some l =>
+      let (file, o') :=
+        if idx == "-" then (db, o)
+        else match Http.legacyPick ib.length o with
+          | (true, o') => (ib, o')
+          | (false, o') => (db, o')
+      (match Http.httpRead file o' l with
+       | .ok b => s!"ok {bytesToHex b} local {bytesToHex (Http.localRead file o' l)}"
+       | .error _ => s!"IOError local {bytesToHex (Http.localRead file o' l)}")
+    | _, _, _, _ => "bad-request"
+  | ["http-dispatch", opt, info] =>
+    let i : Option Bool := if info == "none" then none else some (info == "1")
+    if Http.dispatchSharded (opt == "1") i then "sharded" else "plain"
   | _ => "bad-request"
 
 partial def loop (h : IO.FS.Stream) (out : IO.FS.Stream) : IO Unit := do
